@@ -110,35 +110,45 @@ func (r *RibEntry) pruneIfEmpty() {
 }
 
 func (r *RibEntry) updateNexthopsEnc() {
-	FibStrategyTable.ClearNextHopsEnc(r.Name)
+	// Only nodes that hold (or have held) routes own a FIB entry. Filler nodes
+	// on the way to a longer prefix have no name and contribute nothing.
+	if r.Name != nil {
+		FibStrategyTable.ClearNextHopsEnc(r.Name)
+	}
 
-	// All routes including parents if needed
-	routes := append([]*Route{}, r.routes...)
+	if r.Name != nil && len(r.routes) > 0 {
+		// Own routes
+		routes := append([]*Route{}, r.routes...)
 
-	// Get all possible nexthops for parents that are inherited,
-	// unless we have the capture flag set
-	if !r.HasCaptureRoute() {
-		for entry := r; entry != nil; entry = entry.parent {
-			for _, route := range entry.routes {
-				if route.HasChildInheritFlag() {
-					routes = append(routes, route)
+		// Child-inherit routes of shorter prefixes, unless we have the capture
+		// flag set. Inheritance stops at (and includes) the nearest shorter
+		// prefix holding a capture route.
+		if !r.HasCaptureRoute() {
+			for entry := r.parent; entry != nil; entry = entry.parent {
+				for _, route := range entry.routes {
+					if route.HasChildInheritFlag() {
+						routes = append(routes, route)
+					}
+				}
+				if entry.HasCaptureRoute() {
+					break
 				}
 			}
 		}
-	}
 
-	// Find minimum cost route per nexthop
-	minCostRoutes := make(map[uint64]uint64) // FaceID -> Cost
-	for _, route := range routes {
-		cost, ok := minCostRoutes[route.FaceID]
-		if !ok || route.Cost < cost {
-			minCostRoutes[route.FaceID] = route.Cost
+		// Find minimum cost route per nexthop
+		minCostRoutes := make(map[uint64]uint64) // FaceID -> Cost
+		for _, route := range routes {
+			cost, ok := minCostRoutes[route.FaceID]
+			if !ok || route.Cost < cost {
+				minCostRoutes[route.FaceID] = route.Cost
+			}
 		}
-	}
 
-	// Add "flattened" set of nexthops
-	for nexthop, cost := range minCostRoutes {
-		FibStrategyTable.InsertNextHopEnc(r.Name, nexthop, cost)
+		// Add "flattened" set of nexthops
+		for nexthop, cost := range minCostRoutes {
+			FibStrategyTable.InsertNextHopEnc(r.Name, nexthop, cost)
+		}
 	}
 
 	// Trigger update for all children for inheritance
@@ -227,16 +237,16 @@ func (r *RibEntry) CleanUpFace(faceId uint64) {
 		return
 	}
 
-	for i, route := range r.routes {
+	// Remove every route of the face (there may be one per origin)
+	kept := r.routes[:0]
+	for _, route := range r.routes {
 		if route.FaceID == faceId {
-			if i < len(r.routes)-1 {
-				copy(r.routes[i:], r.routes[i+1:])
-			}
-			r.routes = r.routes[:len(r.routes)-1]
 			readvertiseWithdraw(r.Name, route)
-			break
+		} else {
+			kept = append(kept, route)
 		}
 	}
+	r.routes = kept
 	r.updateNexthopsEnc()
 	r.pruneIfEmpty()
 }
